@@ -12,8 +12,10 @@ Transliteration of
 
 Strings are byte lists (`Bytes`).  Opaque library results enter as inputs of the abstract request:
 `util.IsLoopback` of the listener address and of `Host`, `CrossOriginProtection.Check`, the base media
-type returned by `mime.ParseMediaType`, the result of `checkRequest`, the result of `extractName`,
-and `base64.StdEncoding` (a pair `enc`/`dec`; the theorems assume only `dec (enc s) = some s`).
+type returned by `mime.ParseMediaType`, the result of `checkRequest`, whether the non-identifying members of `params`
+decode (second result of `extractName`), and `base64.StdEncoding` (a pair `enc`/`dec`; the theorems assume only `dec (enc s) = some s`).
+`params` itself is NOT an opaque input: §E′ decodes the member list of the JSON text (exact member names, repeated
+members) into the name, the arguments and the `_meta` version the gates compare the headers with.
 Core Lean only: linked into `drv_preflight`.  All functions are total.
 -/
 namespace Preflight
@@ -656,8 +658,27 @@ def decodeName (method : Bytes) (p : RawParams) : Option Bytes :=
     | .null => some []
     | _ => none
 
-/-- `params.arguments` as `validateParamHeaders` / `generateParamHeaders` decode it. -/
+/-- Decoding a `json.RawMessage` field: the value of the last member called exactly `key` (`cur` = the field so far). -/
+def rawFieldFrom (key : Bytes) : Option JV → List (Bytes × JV) → Option JV
+  | cur, [] => cur
+  | cur, (k, v) :: rest => if k = key then rawFieldFrom key (some v) rest else rawFieldFrom key cur rest
+
+/-- `params.arguments` as `validateParamHeaders` / `generateParamHeaders` decode it — REPAIRED behaviour (fix
+preflight-F31): the arguments are those of the LAST member called exactly `arguments`, which is what the dispatcher
+hands to the tool handler (`CallToolParamsRaw.Arguments` is a `json.RawMessage`: a repeated member overwrites).  The
+pinned tree decodes straight into a `map[string]json.RawMessage`, which MERGES repeated members (`decodeArgsUnrepaired`). -/
 def decodeArgs : RawParams → Args
+  | .obj ms =>
+    match rawFieldFrom memberArguments none ms with
+    | none => .missing
+    | some .null => .missing
+    | some (.obj f) => .obj f
+    | some _ => .bad
+  | .null => .missing
+  | _ => .bad
+
+/-- The pinned tree's decoding of `params.arguments` (before fix preflight-F31): repeated `arguments` members are merged. -/
+def decodeArgsUnrepaired : RawParams → Args
   | .obj ms =>
     match mapFieldFrom memberArguments none ms with
     | none => .bad
